@@ -95,6 +95,69 @@ var c11Subs = []subVariant{
 	{nil, []string{"chat"}, []string{""}},
 	{[]string{"Chat"}, []string{"chat"}, []string{"chat", "Chat", ""}}, // case only: don't care
 	{[]string{"a, b, c"}, []string{"c", "a"}, []string{"c"}},
+	{[]string{"Chat"}, []string{"Chat"}, []string{"Chat"}},
+	{[]string{"echo, MQTT"}, []string{"MQTT", "echo"}, []string{"MQTT"}},
+	{[]string{"a ,  b", "v2.Json"}, []string{"v2.Json", "b"}, []string{"v2.Json"}},
+}
+
+var c11SubPool = []string{"chat", "Chat", "MQTT", "mqtt", "v2.Json", "x", "superchat", "a", "b", "WAMP.2.json"}
+
+// genSubVariant draws supported and offered lists from a pool with mixed-case
+// names. The selection must be the first server-preferred name the client
+// offered with the same spelling; where an earlier server name matches an offer
+// only up to case, selecting it is acceptable as well. The spelling of the
+// answer (server's or client's) is not constrained.
+func genSubVariant(t *simrt.Tape) subVariant {
+	var sv subVariant
+	used := map[string]bool{}
+	for n := t.Draw(4); n > 0; n-- {
+		p := c11SubPool[t.Draw(len(c11SubPool))]
+		if !used[p] {
+			used[p] = true
+			sv.supported = append(sv.supported, p)
+		}
+	}
+	var toks []string
+	for n := t.Draw(5); n > 0; n-- {
+		toks = append(toks, c11SubPool[t.Draw(len(c11SubPool))])
+	}
+	line := ""
+	for i, tk := range toks {
+		if i > 0 && t.Draw(3) == 0 {
+			sv.offered = append(sv.offered, line)
+			line = ""
+		}
+		if line != "" {
+			line += []string{", ", ",", " , ", ",  "}[t.Draw(4)]
+		}
+		line += tk
+	}
+	if line != "" {
+		sv.offered = append(sv.offered, line)
+	}
+	decided := false
+	for _, sp := range sv.supported {
+		exact, fold := false, ""
+		for _, tk := range toks {
+			if tk == sp {
+				exact = true
+			} else if strings.EqualFold(tk, sp) {
+				fold = tk
+			}
+		}
+		if exact {
+			sv.want = append(sv.want, sp)
+			decided = true
+			break
+		}
+		if fold != "" {
+			sv.want = append(sv.want, sp, fold)
+		}
+	}
+	if !decided {
+		sv.want = append(sv.want, "")
+	}
+	return sv
 }
 
 func enumC11(tier string) [][]uint32 {
@@ -200,6 +263,10 @@ func runC11(r *Run) {
 	compress := t.Draw(2) == 1
 	method, version := c11Methods[mi], c11Versions[vi]
 	cv, uv, wv, kv, sv := c11Conn[ci], c11Upg[ui], c11WSVer[wi], c11Keys[ki], c11Subs[si]
+	if t.Pct(40) {
+		sv = genSubVariant(t)
+		si = len(c11Subs)
+	}
 	valid := method == "GET" && version == "HTTP/1.1" && cv.ok && uv.ok && wv.ok && kv.ok
 	dontCare := wv.dc
 	if !valid {
@@ -401,7 +468,9 @@ func runC11(r *Run) {
 		gotProto := hdr.Get("Sec-WebSocket-Protocol")
 		okp := false
 		for _, w := range sv.want {
-			if w == gotProto {
+			// (the library compares names case-insensitively and answers with the
+			// client's spelling; the spelling of the answer is not constrained)
+			if w == gotProto || w != "" && strings.EqualFold(w, gotProto) {
 				okp = true
 			}
 		}
